@@ -265,6 +265,19 @@ def check_case(p, case, rnd, timeout_ms=240000):
 
 
 def generate(case):
+    """The wrapper is called twice and the first result is edited in place by its owner: the second result must
+    be a fresh circuit (a generated circuit is the caller's to change)."""
+    first = _generate_once(case)
+    if first.outputs:
+        first.set_outputs(list(first.outputs)[:1])
+    if first.gates:
+        lab = list(first.gates)[-1]
+        if not first.get_gate_users(lab) and lab not in first.outputs and lab not in first.inputs:
+            first.remove_gate(lab)
+    return _generate_once(case)
+
+
+def _generate_once(case):
     g = case["gen"]
     be = case.get("big_endian", False)
     if g == "generate_sub_two_numbers":
